@@ -185,7 +185,11 @@ def run(project: Project, rep, tier: str):
               "hopcroftkarp.HopcroftKarp.maximum_matching", "numpy.ndarray.dot", "numpy.sum", "bisect.bisect_left"):
         rep.trust(t)
     kinds = ("finite", "dropped") if tier == "thorough" else ("finite", "dropped")
+    from .distances import check_filter
     for qual in (BN, WS):
+        # 'zero between a diagram and any reordering of itself' includes moving a point with an infinite death: what is
+        # computed per point must follow the points through the finite-death filter
+        check_filter(rep, "MI-FILTER", project, qual)
         check_deg(rep, project, qual, kinds)
         check_shift(rep, project, qual, kinds)
         check_swap(rep, project, qual)
@@ -194,3 +198,4 @@ def run(project: Project, rep, tier: str):
     rep.floor("MI-SHIFT", 6)
     rep.floor("MI-SWAP", 6)
     rep.floor("MI-DIAG", 10)
+    rep.floor("MI-FILTER", 2)
